@@ -76,6 +76,9 @@ Definition mem_spec_trace (wr : Z) :=
         (fun s _ => [snd s]) mem_spec_init.
 
 (* ---- AutoReset: row [] -> [reset; state] *)
+Definition dp_spec_trace (wra wrb : Z) :=
+  trace (fun s i => match i with [raa; waa; wa; wda; rab; wab; wb; wdb] => dp_spec wra wrb s ((raa, waa, wa, wda), (rab, wab, wb, wdb)) | _ => s end) nopre
+        (fun s _ => [fst (snd s); snd (snd s)]) dp_spec_init.
 Definition ar_spec_trace (w : Z) :=
   trace (fun k (_ : list Z) => S k) nopre (fun k _ => [autoreset_spec w k]) O.
 
